@@ -9,7 +9,6 @@
 use std::collections::BTreeMap;
 use std::os::unix::fs::PermissionsExt;
 use std::path::{Path, PathBuf};
-use std::sync::Arc;
 
 use conserve::monitor::test::TestMonitor;
 use conserve::{Archive, BackupOptions, BandId, BandSelectionPolicy, DeleteOptions, RestoreOptions, ValidateOptions};
